@@ -21,6 +21,50 @@ class Thrown(Unknown):
 
 
 class Evaluator:
+    def load_const_global(self, qn, key):
+        """the cells of a const-qualified global (a lookup table) from its initialiser: they hold these values on every
+        run. Written into this evaluator and its ancestors; returns True when the global is such a table."""
+        gs = [g for g in self.prog.globals.get(qn, []) if g.get("init") is not None and re.match(r"^(static )?const\b|\bconst\b", g.get("ct") or "")]
+        if not gs:
+            return False
+        cells = {}
+
+        def fill(node, k_):
+            x = node
+            while x is not None and x["k"] in ("ImplicitCastExpr", "ConstantExpr", "ParenExpr", "ExprWithCleanups", "CStyleCastExpr", "CXXStaticCastExpr") and x.get("c"):
+                if "cv" in x and x["k"] != "ImplicitCastExpr":
+                    break
+                x = x["c"][0]
+            if x is None:
+                return
+            if x["k"] == "InitListExpr":
+                ct_ = (x.get("ct") or "").replace("const ", "").strip()
+                ti = self.prog.types.get(x.get("ct")) or self.prog.types.get(ct_) or {}
+                if ti.get("k") == "array":
+                    ch = x.get("c", [])
+                    for i_ in range(ti.get("extent", len(ch))):
+                        if i_ < len(ch):
+                            fill(ch[i_], "%s[%d]" % (k_, i_))
+                        elif ti.get("extent", 0) < 4096:
+                            cells["%s[%d]" % (k_, i_)] = 0
+                elif ct_ in self.prog.records:
+                    for fl, c_ in zip(self.prog.records[ct_].get("fields", []), x.get("c", [])):
+                        fill(c_, "%s.%s" % (k_, fl["name"]))
+                return
+            if x["k"] == "StringLiteral":
+                cells[k_] = ("str", x.get("v"))
+            elif "cv" in x:
+                cells[k_] = x["cv"]
+            elif x["k"] == "DeclRefExpr" and x.get("dk") in ("Function", "CXXMethod"):
+                cells[k_] = ("fn", x.get("qn") or x.get("name"))
+        fill(gs[0]["init"], key)
+        e_ = self
+        while e_ is not None:
+            for k_, v in cells.items():
+                e_.env.setdefault(k_, v)
+            e_ = getattr(e_, "_parent", None)
+        return bool(cells)
+
     def note_absent(self, key):
         """a read of a memory cell the model does not hold (element of an array / string / argv beyond what exists):
         remembered on the outermost evaluator, the Unknown raised for it may be absorbed on the way up"""
@@ -269,7 +313,11 @@ class Evaluator:
             if n.get("dk") in ("Function", "CXXMethod"):
                 return ("fn", n.get("qn") or key)      # a function designator (decays to a function pointer)
             if (self.tinfo(n.get("ct")) or {}).get("k") == "array":
+                if n.get("global") and key + "[0]" not in self.env:
+                    self.load_const_global(n.get("qn") or key, key)
                 return ("ptr", key, 0)                  # an array variable: its cells are env[name[i]]
+            if n.get("global") and self.load_const_global(n.get("qn") or key, key) and key in self.env:
+                return self.env[key]
             raise Unknown(key)
         if k in ("MemberExpr", "ArraySubscriptExpr"):
             key = self.lkey(n)
@@ -316,6 +364,8 @@ class Evaluator:
                     if isinstance(bv, tuple):
                         return (bv[0], bv[1], bv[2] + self.ev(f.node(inner["idx"])))
                 if getattr(self, "heap_mode", False):
+                    if inner is not None and inner["k"] in ("CallExpr", "CXXMemberCallExpr", "CXXOperatorCallExpr"):
+                        return self.ev(n["c"][0])       # the object a call returns by reference: its identity is the call's value
                     return self.lkey(n["c"][0])
                 if inner is not None and inner["k"] in ("DeclRefExpr", "MemberExpr") and (self.tinfo(inner.get("ct")) or {}).get("k") in ("ptr", "int", "bool", "enum") \
                         and not (inner["k"] == "DeclRefExpr" and inner.get("dk") in ("Function", "CXXMethod")):
